@@ -197,10 +197,11 @@ class Lower(Harness):
                 raise Violation("callable-received-wrong-arguments", f"got {got!r} want {want!r}")
 
 
-def gen_k(k):
+def gen_k(k, n=None, none_surplus=False):
     def g(*a, **kw):
         for i in range(k):
-            yield ("y", i)
+            # with none_surplus the values beyond the declared outputs are None (a stray bare `yield`)
+            yield None if (none_surplus and n is not None and i >= n) else ("y", i)
 
     return g
 
@@ -214,7 +215,7 @@ class Yields(Harness):
     outside = []
 
     def shards(self, tier):
-        return [{"N": n, "mode": m} for n in range(1, 13) for m in ("fluent", "hand", "hand-unsorted")]
+        return [{"N": n, "mode": m} for n in range(1, 13) for m in ("fluent", "hand", "hand-unsorted")] + [{"N": n, "mode": "hand", "none_surplus": True} for n in (2, 3, 11)]
 
     def budget(self, tier):
         return 60.0
@@ -232,8 +233,9 @@ class Yields(Harness):
         with ch.untraced():
             N, mode = params["N"], params["mode"]
             K = ch.pick(15, "K")
+            gen = gen_k(K, N, params.get("none_surplus", False))
             if mode == "fluent":
-                node = fluent.Node(fluent.Payload(gen_k(K)), num_outputs=N, name="g")
+                node = fluent.Node(fluent.Payload(gen), num_outputs=N, name="g")
                 if N > 1:
                     act = fluent.Action(xr.DataArray(np.array([node], dtype=object), dims=["d"]), yields=("y", list(range(N))))
                     coord2out = {i: act.nodes.sel(y=i).data.flatten()[0].name for i in range(N)}
@@ -245,7 +247,7 @@ class Yields(Harness):
                 outs = [f"o{i}" for i in range(N)] if mode == "hand" else [f"o{(N - 1 - i)}" for i in range(N)]
                 if N == 1:
                     outs = None
-                node = Node("g", outputs=outs, payload=(gen_k(K), [], {}))
+                node = Node("g", outputs=outs, payload=(gen, [], {}))
                 coord2out = {i: (outs[i] if outs else Node.DEFAULT_OUTPUT) for i in range(N)}
                 g = Graph([node])
                 name = "g"
@@ -284,5 +286,102 @@ class Yields(Harness):
                     raise Violation("completion-assumed-early", f"{ds} is not the last output published")
 
 
+def scaled(x, factor=1, offset=0):
+    return ("scaled", x, factor, offset)
+
+
+def two(a, b):
+    return ("two", a, b)
+
+
+class BuilderRun(Harness):
+    """Jobs made with TaskBuilder/JobBuilder (positional and keyword edges, defaults, bound values) executed by runner.run."""
+
+    name = "lower-builder-run"
+    engine = "E1-crosshair"
+    properties = ("C10",)
+    rule = "one path = (consumer callable, which parameters are fed by edges - positionally or by keyword, incl. keywords that have defaults - and which carry bound values); non-trivial = >=1 edge"
+    assumptions = ["values are palette picks"]
+    outside = []
+
+    def shards(self, tier):
+        return [{"f": f} for f in ("scaled", "two")]
+
+    def budget(self, tier):
+        return 60.0
+
+    def bounds(self, tier):
+        return {"callables": ["scaled(x, factor=1, offset=0)", "two(a, b)"], "edges": "0..2, positional or keyword"}
+
+    def functions(self):
+        return [r_runner.run, RunnerContext.project]
+
+    def body(self, ch, params):
+        from cascade.low.builders import JobBuilder, TaskBuilder
+
+        with ch.untraced():
+            f = scaled if params["f"] == "scaled" else two
+            pnames = ["x", "factor", "offset"] if f is scaled else ["a", "b"]
+            jb = JobBuilder().with_node("s0", TaskBuilder.from_callable(src0)).with_node("s1", TaskBuilder.from_callable(src1))
+            consumer = TaskBuilder.from_callable(f)
+            fed = {}
+            expect_kw, expect_ps = {}, {}
+            for k, pn in enumerate(pnames):
+                how = ch.pick(4, f"how_{pn}")  # 0 nothing, 1 edge by keyword, 2 edge by position, 3 bound keyword value
+                src = ["s0", "s1"][ch.pick(2, f"src_{pn}")] if how in (1, 2) else None
+                if how == 1:
+                    fed[pn] = ("kw", src)
+                elif how == 2:
+                    fed[pn] = ("ps", src, k)
+                elif how == 3:
+                    consumer = consumer.with_values(**{pn: 40 + k})
+                    expect_kw[pn] = 40 + k
+            # positional edges must form a prefix and must not also be given by keyword
+            ps = sorted(v[2] for v in fed.values() if v[0] == "ps")
+            ch.assume(ps == list(range(len(ps))))
+            for pn, v in fed.items():
+                if v[0] == "ps":
+                    ch.assume(pn not in expect_kw)
+            jb = jb.with_node("c", consumer)
+            for pn, v in fed.items():
+                jb = jb.with_edge(v[1], "c", pn if v[0] == "kw" else v[2])
+            res = jb.build()
+            ch.assume(res.e is None or not res.e)
+            job = res.t
+            # what the callable must receive: defaults < bound values < upstream values
+            sig_defaults = {"factor": 1, "offset": 0} if f is scaled else {}
+            kwargs = dict(sig_defaults)
+            kwargs.update(expect_kw)
+            args = []
+            up = {"s0": ("src", 0), "s1": ("src", 1)}
+            for pn, v in fed.items():
+                if v[0] == "kw":
+                    kwargs[pn] = up[v[1]]
+            for pn in pnames:
+                if pn in fed and fed[pn][0] == "ps":
+                    args.append(up[fed[pn][1]])
+                    kwargs.pop(pn, None) if pn not in sig_defaults else None
+            # a positional edge for a parameter that still has a default entry is a caller error (duplicate argument)
+            for pn in pnames:
+                if pn in fed and fed[pn][0] == "ps" and pn in kwargs:
+                    ch.assume(False)
+            try:
+                want = f(*args, **kwargs)
+            except TypeError:
+                ch.assume(False)
+            ch.note("case", {"f": params["f"], "fed": {k: list(v) for k, v in fed.items()}, "bound": expect_kw})
+            ch.note("nontrivial", bool(fed))
+            try:
+                mem = run_job(job, ["s0", "s1", "c"])
+            except Violation:
+                raise
+            except Exception as e:
+                raise Violation(f"run-raised-{type(e).__name__}", str(e)[:200])
+            got = mem.store[DatasetId("c", "0")]
+            if got != want:
+                raise Violation("callable-received-wrong-arguments", f"got {got!r} want {want!r}")
+
+
 register(Lower())
 register(Yields())
+register(BuilderRun())
